@@ -24,6 +24,11 @@ PINNED_ENV = {
 }
 
 
+def out_dir() -> str:
+    """Where evidence/ and replays/ are written (VERIF_OUT is only for the self-tests)."""
+    return os.path.abspath(os.environ.get('VERIF_OUT', VERIF_DIR))
+
+
 def repo_dir() -> str:
     """The repository under test (VERIF_REPO is only for the sensitivity self-test's copies)."""
     return os.path.abspath(os.environ.get('VERIF_REPO', '/repo'))
@@ -82,7 +87,7 @@ def procs() -> int:
 def pin_process() -> None:
     """Settings every simulating process applies once (after exec with PINNED_ENV)."""
     import warnings
-    warnings.simplefilter('always')
+    warnings.simplefilter('ignore')
     import logging
     logging.disable(logging.CRITICAL)
 
